@@ -321,7 +321,7 @@ Definition e2e_stream_judge (case out : list Z) : bool :=
 (* e2e_amp (C11): the wire log                                                                *)
 (* ------------------------------------------------------------------------------------------ *)
 (* [1, server_id, client_id, n_raw, server_first_handshake_rx_us, connect_ok, watchdog, capped,
-    n_wire, wire x7: (t_us, kind, src, dst, len, first byte, class)]
+    n_wire, client_id_after_rebinding (-1 none), wire x7: (t_us, kind, src, dst, len, first byte, class)]
    kind 0 = put on the wire by src; 1 = delivered to dst; 2 = the server processed the first
    client Handshake packet (address validated).
    class 0 short header; 1 datagram contains an Initial packet; 2 other long header;
@@ -375,12 +375,34 @@ Fixpoint amp_scan (srv cli : Z) (seen : list wrec) (recv sent : Z) (valid : bool
         (valid || is_marker e) t
   end.
 
+(* A client that moves to a new address mid-connection starts there as an unvalidated address
+   again (RFC 9000 9.3): the same scan is run for the second client address [cli2] on the log
+   without the rows of the first address, with the path-validated marker (kind 3, src = that
+   address) in the role of the address-validated marker; and the first scan runs on the log
+   without the rows of the second address. *)
+Definition involves (a : Z) (e : wrec) : bool := (w_src e =? a) || (w_dst e =? a).
+
+Definition remark (cli2 : Z) (e : wrec) : wrec :=
+  if (w_kind e =? 3) && (w_src e =? cli2)
+  then {| w_t := w_t e; w_kind := 2; w_src := w_src e; w_dst := w_dst e; w_len := w_len e; w_fb := w_fb e; w_class := w_class e |}
+  else if w_kind e =? 2
+  then {| w_t := w_t e; w_kind := 9; w_src := w_src e; w_dst := w_dst e; w_len := w_len e; w_fb := w_fb e; w_class := w_class e |}
+  else e.
+
+Definition amp_log1 (cli2 : Z) (l : list wrec) : list wrec :=
+  filter (fun e => negb (involves cli2 e && negb (cli2 =? -1))) l.
+Definition amp_log2 (cli cli2 : Z) (l : list wrec) : list wrec :=
+  map (remark cli2) (filter (fun e => negb (involves cli e) || (w_kind e =? 2)) l).
+
 Definition e2e_amp_judge (case out : list Z) : bool :=
-  if negb ((nz out 0 =? 1) && Nat.leb 9 (length out)) then false else
-  match take_rows 7 (nz out 8) (skipn 9 out) with
+  if negb ((nz out 0 =? 1) && Nat.leb 10 (length out)) then false else
+  match take_rows 7 (nz out 8) (skipn 10 out) with
   | Some (rws, []) =>
+      let l := map mk_wrec rws in
+      let srv := nz out 1 in let cli := nz out 2 in let cli2 := nz out 9 in
       (nz out 6 =? 0) &&
-      amp_scan (nz out 1) (nz out 2) [] 0 0 false (map mk_wrec rws)
+      amp_scan srv cli [] 0 0 false (amp_log1 cli2 l) &&
+      ((cli2 =? -1) || amp_scan srv cli2 [] 0 0 false (amp_log2 cli cli2 l))
   | _ => false
   end.
 
@@ -738,51 +760,72 @@ Fixpoint cc_scan (cc : Z) (s : ccst) (l : list xrow) : bool :=
   | r :: t => if x_k r =? 7 then true else cc_check cc s r && cc_scan cc (cc_upd s r) t
   end.
 
-(* C10, CUBIC: the window shrinks at most once per round trip.  Between two reductions of the
-   reported window some packet sent after the first reduction must have been acknowledged (the
-   recovery period ended), unless the second one is persistent congestion (window = minimum). *)
+(* C10, CUBIC: the window shrinks at most once per round trip.
+   The monitor follows the recovery period of RFC 9002 7.3 from the events alone:
+   - one batch = the rows up to a recovery metrics row (one ACK frame or one loss timer);
+     within a batch the losses take effect before the acknowledgements (as in the sender);
+   - a loss of a congestion controlled packet (ack-eliciting, not an MTU probe) outside a
+     recovery period starts one at that time (that is where the window may shrink);
+   - the period ends when a packet sent after its start is acknowledged;
+   - persistent congestion (window at the minimum after a loss) ends it as well.
+   A multiplicative decrease is recognised by its factor: the reported window is 0.7 times the
+   previous one, within 1 per cent (windows also move for other reasons: growth, rescaling after
+   an MTU change, the cubic function after a recovery period).  A period is only started on such a
+   decrease (a sender that is still in an older period - s2n-quic leaves a period late while it
+   is application limited - does not shrink, and then no new period starts here either).  While
+   a period lasts the window does not grow, so a multiplicative decrease in a batch with a
+   congestion controlled loss, not down to the minimum, is a second reduction within the same
+   round trip. *)
 Record oncest := {
-  o_sent : list (Z * Z * Z);    (* (space, packet number, time sent), not yet acknowledged *)
+  o_sent : list (Z * Z * Z * Z);  (* (space, packet number, time sent, ack eliciting), not yet acknowledged *)
   o_cwnd : Z; o_mtu : Z;
-  o_red_t : Z;                  (* time of the last reduction, -1 if none *)
-  o_red_ok : bool;              (* a packet sent after o_red_t was acknowledged since *)
-  o_cong : bool }.              (* a congestion event was reported since the last recovery metrics *)
+  o_rec : Z;                      (* start of the current recovery period, -1 when not in one *)
+  o_lost : bool;                  (* this batch lost a congestion controlled packet *)
+  o_ack_t : Z }.                  (* latest send time among the packets this batch acknowledged, -1 *)
 
-Definition once_init : oncest := {| o_sent := []; o_cwnd := 12000; o_mtu := 1200; o_red_t := -1; o_red_ok := false; o_cong := false |}.
+Definition once_init : oncest :=
+  {| o_sent := []; o_cwnd := 12000; o_mtu := 1200; o_rec := -1; o_lost := false; o_ack_t := -1 |}.
 
-Definition o_cov (sp lo hi : Z) (u : Z * Z * Z) : bool :=
-  (fst (fst u) =? sp) && (lo <=? snd (fst u)) && (snd (fst u) <=? hi).
+Definition q_sp (u : Z * Z * Z * Z) := fst (fst (fst u)).
+Definition q_pn (u : Z * Z * Z * Z) := snd (fst (fst u)).
+Definition q_t (u : Z * Z * Z * Z) := snd (fst u).
+Definition q_el (u : Z * Z * Z * Z) := snd u.
 
-(* a window reduction: the reported window drops right after a congestion event (a drop without
-   one is a rescaling after an MTU change) *)
-Definition is_reduction (s : oncest) (r : xrow) : bool := (x_k r =? 3) && (g_a r <? o_cwnd s) && o_cong s.
+Definition o_cov (sp lo hi : Z) (u : Z * Z * Z * Z) : bool :=
+  (q_sp u =? sp) && (lo <=? q_pn u) && (q_pn u <=? hi).
 
+(* new = 0.7 * prev within 1 per cent of prev *)
+Definition is_md (prev new : Z) : bool := Z.abs (100 * new - 70 * prev) <=? prev.
+
+(* the second reduction: a batch with a congestion controlled loss while the period lasts *)
 Definition once_check (s : oncest) (r : xrow) : bool :=
-  if is_reduction s r
-  then (o_red_t s =? -1) || o_red_ok s || (g_a r <=? 2 * o_mtu s)
+  if (x_k r =? 3) && o_lost s && (0 <=? o_rec s)
+  then negb (is_md (o_cwnd s) (g_a r)) || (g_a r <=? 2 * o_mtu s)
   else true.
 
 Definition once_upd (s : oncest) (r : xrow) : oncest :=
   if x_k r =? 0 then
-    {| o_sent := (g_x r, g_a r, g_time r) :: o_sent s; o_cwnd := o_cwnd s; o_mtu := o_mtu s;
-       o_red_t := o_red_t s; o_red_ok := o_red_ok s; o_cong := o_cong s |}
+    {| o_sent := (g_x r, g_a r, g_time r, g_c r) :: o_sent s; o_cwnd := o_cwnd s; o_mtu := o_mtu s;
+       o_rec := o_rec s; o_lost := o_lost s; o_ack_t := o_ack_t s |}
   else if x_k r =? 1 then
+    let gone := filter (o_cov (g_x r) (g_a r) (g_b r)) (o_sent s) in
     {| o_sent := filter (fun u => negb (o_cov (g_x r) (g_a r) (g_b r) u)) (o_sent s);
-       o_cwnd := o_cwnd s; o_mtu := o_mtu s; o_red_t := o_red_t s;
-       o_red_ok := o_red_ok s ||
-                   existsb (fun u => o_cov (g_x r) (g_a r) (g_b r) u && (o_red_t s <? snd u)) (o_sent s);
-       o_cong := o_cong s |}
+       o_cwnd := o_cwnd s; o_mtu := o_mtu s; o_rec := o_rec s; o_lost := o_lost s;
+       o_ack_t := fold_right (fun u m => Z.max (q_t u) m) (o_ack_t s) gone |}
+  else if x_k r =? 2 then
+    {| o_sent := o_sent s; o_cwnd := o_cwnd s; o_mtu := o_mtu s; o_rec := o_rec s;
+       o_lost := o_lost s ||
+                 ((negb (g_c r =? 1)) &&
+                  existsb (fun u => (q_sp u =? g_x r) && (q_pn u =? g_a r) && (q_el u =? 1)) (o_sent s));
+       o_ack_t := o_ack_t s |}
   else if x_k r =? 3 then
-    {| o_sent := o_sent s; o_cwnd := g_a r; o_mtu := o_mtu s;
-       o_red_t := if (g_a r <? o_cwnd s) && o_cong s then g_time r else o_red_t s;
-       o_red_ok := if (g_a r <? o_cwnd s) && o_cong s then false else o_red_ok s;
-       o_cong := false |}
-  else if x_k r =? 5 then
-    {| o_sent := o_sent s; o_cwnd := o_cwnd s; o_mtu := o_mtu s; o_red_t := o_red_t s; o_red_ok := o_red_ok s;
-       o_cong := true |}
+    (* end of the batch: losses first, then the acknowledgements *)
+    let rec1 := if o_lost s && (o_rec s <? 0) && is_md (o_cwnd s) (g_a r) then g_time r else o_rec s in
+    let rec2 := if (0 <=? rec1) && (rec1 <? o_ack_t s) then -1 else rec1 in
+    let rec3 := if o_lost s && (g_a r <=? 2 * o_mtu s) then -1 else rec2 in
+    {| o_sent := o_sent s; o_cwnd := g_a r; o_mtu := o_mtu s; o_rec := rec3; o_lost := false; o_ack_t := -1 |}
   else if x_k r =? 6 then
-    {| o_sent := o_sent s; o_cwnd := o_cwnd s; o_mtu := g_a r; o_red_t := o_red_t s; o_red_ok := o_red_ok s;
-       o_cong := o_cong s |}
+    {| o_sent := o_sent s; o_cwnd := o_cwnd s; o_mtu := g_a r; o_rec := o_rec s; o_lost := o_lost s; o_ack_t := o_ack_t s |}
   else s.
 
 Fixpoint once_scan (s : oncest) (l : list xrow) : bool :=
